@@ -376,6 +376,7 @@ def r9_flatten(run: Run, rt):
 
 
 def run(run: Run):
+    from .common import cached_guard as _cached_guard
     src = get_source()
     g = get_grammar(src)
     em = get_emission(src)
@@ -385,9 +386,9 @@ def run(run: Run):
     run.rule('C11.R3', 'Excel function <-> fold primitive table')
     run.rule('C11.R4', 'argument plumbing of the eight functions equals the confirmed reference')
     run.rule('C11.R5', 'fold primitives that fail on an empty list are guarded')
-    run.guard('C11.R1', r1_r3_r5, run, rt)
-    run.guard('C11.R2', r2, run, rt)
-    run.guard('C11.R4', check_plumbing, run, 'C11.R4', src, em, rt, FUNCS)
+    _cached_guard(run, 'C11.R1', r1_r3_r5, rt)
+    _cached_guard(run, 'C11.R2', r2, rt)
+    _cached_guard(run, 'C11.R4', check_plumbing, 'C11.R4', src, em, rt, FUNCS)
     # an aggregate can only fold the numeric cells of an area if the reader delivered every cell of it (a dropped row turns
     # its zeros into blanks, which the numeric filter then ignores): shared with C18.R1
     from .common import borrow
@@ -405,7 +406,7 @@ def run(run: Run):
     _borrow(run, 'C11.R8', _c08.r1, _src, _grt(_src), _gcg(_src))
     _borrow(run, 'C11.R8', _c08.r4, _src, _grt(_src))
     run.rule('C11.R9', 'the argument list is unfolded completely whatever the order of scalars and areas')
-    run.guard('C11.R9', r9_flatten, run, rt)
+    _cached_guard(run, 'C11.R9', r9_flatten, rt)
     from . import c03 as _c03x
     from .common import borrow as _bx
     from ..grammar import get_grammar as _ggx
